@@ -3,9 +3,9 @@
 # of its property (scratch worktrees, 6 at a time) and prints one line each.
 TIER=${1:-quick}
 cd /verif
-ls seeded | grep -v README | while read id; do
+ls seeded | grep -v -e README -e LAST_REGRESSION | while read id; do
   P=${id:0:3}
-  case "$id" in C07r2-B) P="C07 C05";; esac
+  case "$id" in C07r2-B) P="C07 C05";; C06r3-B) P="C06 C05";; esac
   echo "$id $P"
 done > /tmp/mv/all.list
 mkdir -p /tmp/mv/all
